@@ -21,7 +21,7 @@ func init() {
 			"(1) path == \"\" returns the viper getter of the base key; (2) otherwise key = path + \".\" + K' with K' equal to the base key; (3) the presence test and the returned getter read that same key, and the presence test can tell a set zero value from an unset one where zero is a legitimate setting (bool/int); " +
 			"(4) the fallback is strings.LastIndex(path, \".\"): -1 -> self(\"\"), else self(path[0:i]) with exactly that i, and the callee is the function itself; (5) there is no other return. " +
 			"By induction on the number of path components (the reader's step, recorded in DESIGN.md) a function of shape T returns the value at the longest prefix that has one, else the base value. " +
-			"Added with the third seeding round: (5) no configuration read outside the hierarchical getters names <path>.<hierarchical variable> directly. Added with the fourth seeding round: (6) the global log level is trace; (7) a top-level key with an absence fallback is not a registered flag. Added with the fifth seeding round: (8) one function does not hand the same configuration path to two different component requests on one path, and a path built at run time starts with a literal component. NOT decided: viper's own merging of flags/env/file; what 'present' means for a zero duration (visible, not judged).",
+			"Added with the third seeding round: (5) no configuration read outside the hierarchical getters names <path>.<hierarchical variable> directly. Added with the fourth seeding round: (6) the global log level is trace; (7) a top-level key with an absence fallback is not a registered flag. Added with the fifth seeding round: (8) one function does not hand the same configuration path to two different component requests on one path, and a path built at run time starts with a literal component. Added with the sixth seeding round and the false-alarm regression: (9) HierarchicalBool is called with (literal variable, path); (10) a function that resolves a setting for its own path does not also read the top-level value of the same setting on the same path; (4) a third getter template: a walk over the prefixes of the split path, least specific first, in which the last hit wins. NOT decided: viper's own merging of flags/env/file; what 'present' means for a zero duration (visible, not judged).",
 		Technique: "template conformance of sibling functions on SSA: constant-format extraction, provenance of getter keys, guard/edge-deletion for the presence and fallback tests, self-call resolution",
 		Rule:      "5 clauses per hierarchical getter; the set of getters is discovered by role (self-recursive exported functions of util with a string path parameter)",
 	})
@@ -381,6 +381,65 @@ func runC19(p *core.Prog, r *core.Report, tier string) {
 		})
 	}
 	r.Floor("C19.8 path arguments outside the getters", nPathArgs, 30)
+
+	// ---- (9) the generic getter is asked with (variable, path), in that order: the variable is a literal name ----
+	nHB := 0
+	for _, f := range p.SrcFuncs() {
+		for _, ci := range core.Calls(f, func(c *ssa.CallCommon) bool {
+			callee := c.StaticCallee()
+			return callee != nil && callee.Name() == "HierarchicalBool" && core.RelPkg(callee.Pkg.Pkg.Path()) == "util"
+		}) {
+			if f.Name() == "HierarchicalBool" {
+				continue
+			}
+			nHB++
+			a := ci.Common().Args
+			v, isC := constString(a[0])
+			_, pathConst := constString(a[1])
+			r.Check(isC && v != "" && !strings.Contains(v, "."), "C19.9", fmt.Sprintf("%s|variable-then-path#%d", core.FnKey(f), nHB), p.Pos(ci.Pos()), "HierarchicalBool(variable, path)",
+				fmt.Sprintf("HierarchicalBool is called with %s as the variable (path argument constant: %v): the arguments are transposed, so the setting is looked up under keys that do not exist and always resolves to false", ds.D(a[0]).String(), pathConst))
+		}
+	}
+	r.Floor("C19.9 calls of the generic hierarchical getter", nHB, 1)
+
+	// ---- (10) a component that resolves a setting for its own path does not also decide on the top-level value of the
+	// same setting: the same getter is not called with "" and with a path in one function ----
+	for _, f := range p.SrcFuncs() {
+		if isGetter[f] {
+			continue
+		}
+		type use struct {
+			top, specific ssa.CallInstruction
+		}
+		byGetter := map[*ssa.Function]*use{}
+		for _, ci := range core.Calls(f, func(c *ssa.CallCommon) bool { return c.StaticCallee() != nil && isGetter[c.StaticCallee()] }) {
+			callee := ci.Common().StaticCallee()
+			a := ci.Common().Args
+			pa := a[len(a)-1]
+			u := byGetter[callee]
+			if u == nil {
+				u = &use{}
+				byGetter[callee] = u
+			}
+			if cs, isC := constString(pa); isC && cs == "" {
+				u.top = ci
+			} else {
+				u.specific = ci
+			}
+		}
+		for g, u := range byGetter {
+			if u.top != nil && u.specific != nil {
+				// on one path (exclusive switch arms — one style asks with its path, the default with "" — are fine)
+				top, spec := u.top.(ssa.Instruction), u.specific.(ssa.Instruction)
+				w1 := core.PathQuery{Fn: f, From: top, Target: func(x ssa.Instruction) bool { return x == spec }}.Find()
+				w2 := core.PathQuery{Fn: f, From: spec, Target: func(x ssa.Instruction) bool { return x == top }}.Find()
+				if w1 == nil && w2 == nil {
+					continue
+				}
+				r.Violate("C19.10", fmt.Sprintf("%s|top-level-beside-own-path|%s", core.FnKey(f), g.Name()), p.Pos(u.top.Pos()), "the function resolves "+g.Name()+" for its own path (at "+p.Pos(u.specific.Pos())+") and also reads the top-level value: a decision taken on the top level ignores what is configured for the component")
+			}
+		}
+	}
 
 	r.Floor("C19.5 hierarchical variables", len(vlist), 4)
 	r.Floor("C19.5 configuration reads swept", nReads, 20)
